@@ -42,6 +42,12 @@ def fp_value(v, depth=0):
             setf = None
         origin = type(v).__dict__.get('__origin__', None)
         return ['pane:' + tn, fields, setf, getattr(origin, '__name__', None)]
+    mod = getattr(type(v), '__module__', '') or ''
+    d = getattr(v, '__dict__', None)
+    if isinstance(d, dict) and (mod.startswith('pane') or mod.startswith('sim')) and not isinstance(v, type):
+        # e.g. pane.types.ValueOrList: its repr embeds the repr of a possibly set-valued payload,
+        # whose order depends on PYTHONHASHSEED - fingerprint the attributes structurally instead
+        return ['obj:' + tn, [[k, fp_value(x, depth + 1)] for (k, x) in sorted(d.items())]]
     return [tn, mask(repr(v))]
 
 
@@ -105,4 +111,10 @@ def order_free(fp):
         kids = [order_free(x) for x in fp]
         import json
         return sorted(kids, key=lambda k: json.dumps(k, sort_keys=True, default=str))
+    if isinstance(fp, str) and '{' in fp:
+        # error texts quote offending values; a quoted set/dict of strings prints in hash order
+        return _BRACES.sub(lambda m: '{' + ', '.join(sorted(x.strip() for x in m.group(1).split(','))) + '}', fp)
     return fp
+
+
+_BRACES = re.compile(r'\{([^{}]*)\}')
